@@ -3,10 +3,12 @@ import RsslVerif.Model.CondExpr
 # Model of `ConditionChain` and of the gating in `preprocess_command` / `flush_normal`
 # (preprocess/src/preprocess.rs)
 
-A file is a list of logical lines (`Dir`).  The state is the `ConditionChain` stack (head = innermost
-level = last element of the Rust `Vec`), the macro table and the text lines that reached the output.
-The three-state transition table, the state pushed by `#if/#ifdef/#ifndef`, the per-command gating and
-the three chain errors are the definitions re-extracted from the source (`Gen.CondTables`).
+A file is a list of logical lines (`Dir`).  The state is the `ConditionChain` stack of `ConditionBlock`s (head
+= innermost block = last element of the Rust `Vec`; a block = its `ConditionState` and whether its `#else`
+branch has started), the macro table and the text lines that reached the output.  The three-state transition
+table, `Block.switch` (nothing follows the `#else` branch), the state pushed by `#if/#ifdef/#ifndef`, the
+per-command gating, the treatment of directives without a name and the five chain errors are the definitions
+re-extracted from the source (`Gen.CondTables`).
 
 `step` is parametrised by the condition evaluator `cv` (`#if`/`#elif` value in a macro table, an error =
 the line is rejected); the executable model uses `CondExpr.condValue`.
@@ -47,31 +49,44 @@ inductive Dir where
   | incl (file : Option (List (List CTok)))
   /-- `#<unknown command name>` -/
   | unknown
+  /-- `#` followed by something that is not a name (`#3`, `# +`) -/
+  | nonName
   deriving DecidableEq, Repr, Inhabited
 
 structure St where
-  chain : List CS
+  /-- `ConditionChain.0`, innermost block first (one file: the file base `ConditionChain.1` is 0) -/
+  chain : List Block
   macros : Macros
   out : List (List CTok)
   deriving DecidableEq, Repr, Inhabited
 
 /-- `ConditionChain::is_active` -/
-def active (ch : List CS) : Bool := ch.all (· == activeState)
+def active (ch : List Block) : Bool := ch.all (·.state == activeState)
 
-/-- command name of a directive line, as matched in `preprocess_command` -/
-def Dir.command : Dir → Option String
-  | .ifc _ => some "if"
-  | .ifdef false _ => some "ifdef"
-  | .ifdef true _ => some "ifndef"
-  | .elif _ => some "elif"
-  | .els => some "else"
-  | .endif => some "endif"
-  | .text _ => none
-  | .define _ _ => some "define"
-  | .undef _ => some "undef"
-  | .pragma _ => some "pragma"
-  | .incl _ => some "include"
-  | .unknown => some "frobnicate"
+/-- what `preprocess_command` / `flush_normal` see of a line -/
+inductive Cmd where
+  /-- not a directive: collected in `active_tokens`, kept by `flush_normal` iff active -/
+  | text
+  /-- a directive the name split of `preprocess_command` does not give a name -/
+  | nonName
+  /-- a directive with this command name, as matched in `preprocess_command` -/
+  | named (cmd : String)
+  deriving DecidableEq, Repr, Inhabited
+
+def Dir.command : Dir → Cmd
+  | .ifc _ => .named "if"
+  | .ifdef false _ => .named "ifdef"
+  | .ifdef true _ => .named "ifndef"
+  | .elif _ => .named "elif"
+  | .els => .named "else"
+  | .endif => .named "endif"
+  | .text _ => .text
+  | .define _ _ => .named "define"
+  | .undef _ => .named "undef"
+  | .pragma _ => .named "pragma"
+  | .incl _ => .named "include"
+  | .unknown => .named "frobnicate"
+  | .nonName => .nonName
 
 /-- text that is flushed while active goes through `apply_macros(.., apply_defined = false, ..)` -/
 def expandText (m : Macros) (toks : List CTok) : List CTok :=
@@ -79,26 +94,36 @@ def expandText (m : Macros) (toks : List CTok) : List CTok :=
   | .ok r => r
   | .error _ => toks
 
+/-- `ConditionChain::switch(active, is_else, ..)` on the stack of the file -/
+def switchTop (ch : List Block) (act isElse : Bool) : Except ChainErr (List Block) :=
+  match ch with
+  | [] => .error switchEmptyErr
+  | top :: r =>
+    match top.switch act isElse with
+    | .error e => .error e
+    | .ok top' => .ok (top' :: r)
+
 /-- what the command does when it is *not* skipped (or is not gated at all) -/
 def exec (cv : Macros → List CTok → Except CondErr Bool) (s : St) : Dir → Except Err St
   | .ifc c =>
     match cv s.macros c with
-    | .ok b => .ok { s with chain := pushState b :: s.chain }
+    | .ok b => .ok { s with chain := newBlock (pushState b) :: s.chain }
     | .error e => .error (.cond e)
   | .ifdef neg n =>
     let ex := s.macros.isDefined n
-    .ok { s with chain := pushState (if neg then !ex else ex) :: s.chain }
+    .ok { s with chain := newBlock (pushState (if neg then !ex else ex)) :: s.chain }
   | .elif c =>
+    -- the condition is evaluated before `switch` is called
     match cv s.macros c with
     | .error e => .error (.cond e)
     | .ok b =>
-      match s.chain with
-      | [] => .error (.chain switchEmptyErr)
-      | top :: r => .ok { s with chain := top.switch b :: r }
+      match switchTop s.chain b elifIsElse with
+      | .error e => .error (.chain e)
+      | .ok ch => .ok { s with chain := ch }
   | .els =>
-    match s.chain with
-    | [] => .error (.chain switchEmptyErr)
-    | top :: r => .ok { s with chain := top.switch elseSwitchArg :: r }
+    match switchTop s.chain elseSwitchArg elseIsElse with
+    | .error e => .error (.chain e)
+    | .ok ch => .ok { s with chain := ch }
   | .endif =>
     match s.chain with
     | [] => .error (.chain popEmptyErr)
@@ -111,18 +136,23 @@ def exec (cv : Macros → List CTok → Except CondErr Bool) (s : St) : Dir → 
   | .incl none => .error .FailedToFindFile
   | .incl (some lines) => .ok { s with out := s.out ++ lines.map (expandText s.macros) }
   | .unknown => .error .UnknownCommand
+  | .nonName => .error .UnknownCommand
+
+/-- how a line is treated while `skip` holds: text is dropped by `flush_normal`, a directive without a name by
+    the name split (`nonNameGate`), a named directive by its arm (`gate`) -/
+def Cmd.gate : Cmd → Gate
+  | .text => .skipNoEffect
+  | .nonName => nonNameGate
+  | .named cmd => RsslVerif.Gen.CondTables.gate cmd
 
 /-- one line: `flush_normal` for text (kept iff active), `preprocess_command` for directives
-    (`skip = !is_active()`, then the per-command gating of the source) -/
+    (`skip = !is_active()`, then the name split and the per-command gating of the source) -/
 def step (cv : Macros → List CTok → Except CondErr Bool) (s : St) (d : Dir) : Except Err St :=
-  match d.command with
-  | none => if active s.chain then exec cv s d else .ok s
-  | some cmd =>
-    if active s.chain then exec cv s d
-    else match gate cmd with
-      | .skipNoEffect => .ok s
-      | .skipPushes c => .ok { s with chain := c :: s.chain }
-      | .notGated => exec cv s d
+  if active s.chain then exec cv s d
+  else match d.command.gate with
+    | .skipNoEffect => .ok s
+    | .skipPushes c => .ok { s with chain := newBlock c :: s.chain }
+    | .notGated => exec cv s d
 
 def run (cv : Macros → List CTok → Except CondErr Bool) (s : St) : List Dir → Except Err St
   | [] => .ok s
@@ -131,10 +161,14 @@ def run (cv : Macros → List CTok → Except CondErr Bool) (s : St) : List Dir 
     | .ok s' => run cv s' ds
     | .error e => .error e
 
-/-- `preprocess_initial_file`: run the lines, then require an empty stack -/
+/-- `preprocess_initial_file`: run the lines; `preprocess_included_file` requires that the file ends with the
+    number of blocks it started with (0 for the entry file), then `preprocess_initial_file` requires an empty
+    stack -/
 def runFile (cv : Macros → List CTok → Except CondErr Bool) (m : Macros) (ds : List Dir) : Except Err St :=
   match run cv ⟨[], m, []⟩ ds with
-  | .ok s => if s.chain.isEmpty then .ok s else .error (.chain unfinishedErr)
+  | .ok s =>
+    if s.chain.length ≠ 0 then .error (.chain fileUnfinishedErr)
+    else if s.chain.isEmpty then .ok s else .error (.chain unfinishedErr)
   | .error e => .error e
 
 /-- the executable instance -/
